@@ -86,7 +86,7 @@ SAMESITE = [None, "strict", "LAX", "nOnE", "Strict", "bogus", ""]
 PATHS = [None, "/", "/a b", "/x;y", "/\u00e9"]
 
 
-def body_attributes(I, X, n=1, samesite_i=0, path_i=0, expires_month=0):
+def body_attributes(I, X, n=1, samesite_i=0, path_i=0, expires_month=0, age_td=False):
     """attribute assembly: exactly the requested attributes, canonical, fixed order"""
     from werkzeug import http
     pass
@@ -121,9 +121,17 @@ def body_attributes(I, X, n=1, samesite_i=0, path_i=0, expires_month=0):
         expires = SymDatetime(f, dtm.timezone.utc) if X.symbolic else dtm.datetime(*f, tzinfo=dtm.timezone.utc)
         mon = ["Jan", "Feb", "Mar", "Apr", "May", "Jun", "Jul", "Aug", "Sep", "Oct", "Nov", "Dec"][expires_month - 1]
         exp_tail = pconcat(pstr(f[2]).zfill(2), " ", mon, " ", pstr(y), " ", pstr(f[3]).zfill(2), ":", pstr(f[4]).zfill(2), ":", pstr(f[5]).zfill(2), " GMT")
+    max_age_arg = max_age
+    if age_td:
+        # max_age given as a timedelta (days / seconds / negative): Max-Age is its whole seconds
+        import datetime as dtm
+
+        days, secs = X.choice("td", [(30, 0), (1, 1), (0, 7200), (-1, 86399), (0, 0), (14, 43200)])
+        max_age_arg = dtm.timedelta(days=days, seconds=secs)
+        max_age = days * 86400 + secs
     try:
         rv = I.call(http.dump_cookie, ("k", value), {
-            "max_age": max_age, "path": path, "domain": domain, "secure": secure, "httponly": httponly,
+            "max_age": max_age_arg, "path": path, "domain": domain, "secure": secure, "httponly": httponly,
             "samesite": samesite, "partitioned": partitioned, "sync_expires": False, "expires": expires})
     except ValueError:
         return samesite in ("bogus", ""), {"raised": "ValueError"}
@@ -186,6 +194,8 @@ def obligations(tier, seed):
         for np_, nr in ([(1, 1), (1, 3), (2, 2), (2, 3)] if quick else [(a, b) for a in range(0, 4) for b in range(0, 5)]):
             out.append({"name": f"jar_match[cookie_path={np_},request_path={nr},origin_only={oo}]", "body": "body_jar_match",
                         "params": {"np_": np_, "nr": nr, "origin_only": oo}, "opts": {"budget_s": 600, "ctx": {"max_cp": 0x7F}}})
+    out.append({"name": "attributes[max_age=timedelta]", "body": "body_attributes", "params": {"n": 0, "samesite_i": 1, "path_i": 1, "age_td": True},
+                "opts": {"budget_s": 1500}})
     for ki in range(len(JAR_KEYS)):
         for n in (((1,) if ki < 5 else (0,)) if quick else (0, 1, 2)):
             out.append({"name": f"jar_record[key={JAR_KEYS[ki]},n={n}]", "body": "body_jar_record", "params": {"key_i": ki, "n": n, "full": not quick and n < 2},
